@@ -43,6 +43,29 @@ def judge(prog, s):
     return bad, key
 
 
+def backlog(ctx, res: Result):
+    """Real kernel, real threads (own process): stop() with thousands of unconsumed events pending."""
+    import json
+    import os
+    import subprocess
+    import sys
+    from harness.core import Failure, digest
+    for n in ([2500] if not ctx.thorough else [2500, 12000]):
+        try:
+            p = subprocess.run([sys.executable, "-m", "harness.backlog", str(n)], capture_output=True, text=True, timeout=120,
+                               env=dict(os.environ))
+            out = json.loads(p.stdout.strip().splitlines()[-1]) if p.stdout.strip() else {"problems": ["no output: " + p.stderr[-300:]]}
+        except subprocess.TimeoutExpired:
+            out = {"problems": ["the backlog scenario did not terminate within 120 s"]}
+        res.evaluations += 1
+        res.hist("emitter_kind", "inotify-real-kernel-backlog")
+        res.nontrivial.add(digest(["backlog", n]))
+        for pr in out.get("problems", []):
+            res.failures.append(Failure(what="C06: shutdown with a backlog of unconsumed inotify events: " + pr,
+                                        case={"scenario": "backlog", "files_written": n}, signature={"law": "backlog-shutdown"},
+                                        observed=out, expected="stop()+join() returns and every library thread has exited"))
+
+
 def run(ctx) -> Result:
     from harness import obsprog as op
     res = Result()
@@ -50,6 +73,7 @@ def run(ctx) -> Result:
                 "(b) every order of start/schedule/unschedule/unschedule_all/stop up to length 3 (quick) / 4 (thorough) from an API "
                 "thread and from inside a callback, each followed by stop();join(); distinct = (program, #stops, stop from "
                 "callback?, calls made); non-trivial = the dispatcher was started and stop() was called")
+    backlog(ctx, res)
     rng = ctx.rng("progs")
     n = 200 if not ctx.thorough else 800
     progs = [c["prog"] for c in ctx.corpus()] + [op.gen_program(rng) for _ in range(n)]
